@@ -125,7 +125,7 @@ def from_desc(d):
 
 # ------------------------------------------------------------ canonical forms
 
-_ADDR = re.compile(r' object at 0x[0-9a-fA-F]+')
+_ADDR = re.compile(r'( object)? at 0x[0-9a-fA-F]+|0x[0-9a-fA-F]{7,}')
 _BIG = 96  # byte strings longer than this are logged as (len, sha1)
 
 
